@@ -197,6 +197,17 @@ def run_mc(work, prop, tier):
     return states, transitions
 
 
+def reproduce_crash(dagdrive, work, name, plan):
+    src = os.path.join(work, "tr", name + ".crash.json")
+    json.dump({"plan": plan}, open(src, "w"))
+    out = os.path.join(work, "tr", name + ".crash.ndjson")
+    p = subprocess.run([dagdrive, "rerun", "-in", src, "-out", out, "-times", "2"], stdout=subprocess.PIPE, stderr=subprocess.STDOUT, text=True, env=GOENV, timeout=600)
+    if p.returncode != 0 and "fatal error:" in p.stdout:
+        what = [l for l in p.stdout.splitlines() if l.startswith("fatal error:")][0]
+        return {"plan": plan, "what": what}
+    return None
+
+
 def split_runs(path):
     """-> list of (start_line_index, end_line_index_exclusive, run_number) for each run of a trace file."""
     runs = []
@@ -297,6 +308,17 @@ def check(prop, tier, seed, work, replay, t0):
                 if sub in ("rand", "exhaust", "follow"):
                     args += ["-plans", ppart]
                 p = subprocess.run(args, stdout=subprocess.PIPE, stderr=subprocess.STDOUT, text=True, env=GOENV, timeout=7200)
+                if p.returncode != 0 and "fatal error:" in p.stdout and os.path.exists(ppart):
+                    # the Go runtime killed the process (stack overflow, deadlock ...): if the last plan does it again
+                    # in a process of its own, the library is at fault, not the driver
+                    with open(ppart) as f:
+                        last = f.readlines()[-1]
+                    crash = reproduce_crash(dagdrive, work, name, json.loads(last))
+                    if crash:
+                        info.setdefault("crashes", []).append(crash)
+                        if os.path.exists(part):
+                            os.remove(part)
+                        continue
                 if p.returncode != 0:
                     raise Broken("dagdrive failed (%d): %s\n%s" % (p.returncode, " ".join(args), p.stdout[-2000:]))
                 for line in p.stdout.splitlines():
@@ -339,6 +361,12 @@ def check(prop, tier, seed, work, replay, t0):
     nviol, reported, notes, knownhits = 0, 0, 0, {}
     viols = []
     for r in results:
+        for cr in r["info"].get("crashes", []):
+            # the process running Graph.Run died: Run did not finish (C16)
+            if prop == "C16":
+                viols.append(dict(kind="crash", res=r, rej=None, crash=cr))
+            else:
+                notes += 1
         if r["info"]["overlap"] and prop == "C15":
             viols.append(dict(kind="overlap", res=r, rej=None))
         for rj in r["rej"]:
@@ -370,6 +398,9 @@ def check(prop, tier, seed, work, replay, t0):
                                 rec["plan"] = p
             elif v["kind"] == "race":
                 rec["detail"] = v["detail"]
+            elif v["kind"] == "crash":
+                rec["plan"] = v["crash"]["plan"]
+                rec["detail"] = v["crash"]["what"]
             with open(path, "w") as f:
                 json.dump(rec, f, indent=1)
             log("VIOLATION property=%s replay=%s" % (prop, path))
@@ -381,6 +412,10 @@ def check(prop, tier, seed, work, replay, t0):
                     json.dumps({k: rj["event"].get(k) for k in ("ev", "id", "k", "n")}), rj["invariant"], rj["why"]))
             elif v["kind"] == "race":
                 log("  race detector: %s" % v["detail"][:300])
+            elif v["kind"] == "crash":
+                hist = [(o["op"], o["t"], o.get("d", "")) for o in v["crash"]["plan"]["History"]]
+                log("  graph construction: %s" % json.dumps(hist))
+                log("  Graph.Run took the whole process down (%s), reproduced in a process of its own" % v["crash"]["what"])
             else:
                 log("  a Task shared by two graphs was inside its function in both at once")
             reported += 1
@@ -444,7 +479,13 @@ def do_replay(prop, dagdrive, work, path):
     src = os.path.join(work, "replay-in.json")
     shutil.copy(path, src)
     trace = os.path.join(work, "tr", "replay.ndjson")
-    run([dagdrive, "rerun", "-in", src, "-out", trace, "-times", "30"], env=GOENV)
+    p = subprocess.run([dagdrive, "rerun", "-in", src, "-out", trace, "-times", "30"], stdout=subprocess.PIPE, stderr=subprocess.STDOUT, text=True, env=GOENV, timeout=1800)
+    if p.returncode != 0 and "fatal error:" in p.stdout:
+        log("VIOLATION property=%s replay=%s" % (prop, path))
+        log("  Graph.Run took the whole process down: %s" % [l for l in p.stdout.splitlines() if l.startswith("fatal error:")][0])
+        return 1
+    if p.returncode != 0:
+        raise Broken("dagdrive rerun failed (%d):\n%s" % (p.returncode, p.stdout[-2000:]))
     ok, rej = validate(work, "replay", trace)
     mine = [r for r in rej if prop in attribute(r)]
     if mine:
